@@ -121,7 +121,8 @@ def final_loop(vc, obj, nP, reject=False):
 
 def post_common(vc, obj, nP):
     d, pv = obj.fields.get('_parameters'), obj.fields.get('_paramValue')
-    vc.ensure('a value list with one entry per declared parameter', isinstance(pv, SMutList) and to_num(pv.length) == nP)
+    vc.binds(isinstance(pv, SMutList), 'the positional values are kept in a python list')
+    vc.ensure('a value list with one entry per declared parameter', to_num(pv.length) == nP)
     vc.ensure('class invariant: keys are declared names; str key before Symbol key', CI(d, nP))
     vc.ensure('the positional values are the lookup of the stored dictionary (what evaluators receive after x, t)', REL(d, pv, nP))
     return d, pv
